@@ -159,3 +159,61 @@ func Frontier(root *resolve.FetchTreeNode, issues func(id int) bool, completed m
 	sort.Ints(fl)
 	return fl
 }
+
+// Before reports whether leaf a is ordered strictly before leaf b under every linearisation
+// the tree allows: their lowest common ancestor is a Sequence and a's branch comes first.
+func Before(root *resolve.FetchTreeNode, a, b int) bool {
+	leaves, kinds, _ := Leaves(root)
+	la, lb := leaves[a], leaves[b]
+	if la == nil || lb == nil || a == b {
+		return false
+	}
+	pa, pb := la.Path, lb.Path
+	i := 0
+	for i < len(pa) && i < len(pb) && pa[i] == pb[i] {
+		i++
+	}
+	if i >= len(pa) || i >= len(pb) {
+		return false
+	}
+	return kinds[fmt.Sprint(pa[:i])] == resolve.FetchTreeNodeKindSequence && pa[i] < pb[i]
+}
+
+// Container maps every original fetch id to the leaf that carries it in this tree: itself, the
+// multi-entity fetch it was merged into, or - for ids that are absent - the leaf for which
+// equal(absent id, leaf id) holds (fetch de-duplication keeps one of several equal fetches).
+func Container(root *resolve.FetchTreeNode, originals []int, equal func(absent, present int) bool) map[int]int {
+	leaves, _, _ := Leaves(root)
+	out := map[int]int{}
+	for id, l := range leaves {
+		out[id] = id
+		if m, ok := l.Item.Fetch.(*resolve.MultiEntityFetch); ok {
+			for _, x := range m.MergedFetchIDs {
+				out[x] = id
+			}
+		}
+	}
+	ids := make([]int, 0, len(leaves))
+	for id := range leaves {
+		ids = append(ids, id)
+	}
+	sort.Ints(ids)
+	for _, o := range originals {
+		if _, ok := out[o]; ok {
+			continue
+		}
+		for _, id := range ids {
+			if equal != nil && equal(o, id) {
+				out[o] = id
+				break
+			}
+		}
+	}
+	// an id merged into a fetch that was itself merged
+	for k, v := range out {
+		if w, ok := out[v]; ok && w != v {
+			out[k] = w
+		}
+	}
+	return out
+}
